@@ -42,8 +42,24 @@ def main():
                 if not hits:
                     print('REPLAY-PASSES')
                 return 1 if hits else 0
+            if isinstance(fr, dict) and fr.get('oracle') == 'contention':
+                # concurrent callers (harness.contention): the group runs again, several times over (schedules are sampled)
+                from . import contention
+                rt.setup_torch()
+                for _ in range(5):
+                    contention.run_for(ck, a.prop, only=fr.get('group'))
+                    if ck.failures:
+                        break
+                for f in ck.failures[:3]:
+                    print('REPLAY-FAILS: ' + f['desc'])
+                if not ck.failures:
+                    print('REPLAY-PASSES')
+                return 1 if ck.failures else 0
             return mod.replay(ck, a.replay)
         mod.run(ck)
+        if not os.environ.get('VERIF_NO_CONTENTION'):          # debugging switch only; the registered commands never set it
+            from . import contention
+            contention.run_for(ck, a.prop)
         return ck.finish()
     except Exception:
         traceback.print_exc()
